@@ -127,10 +127,10 @@ Definition is_area_in_range (m : matrix) (primary_axis : axis) (primary_range se
 
 (* the copy loop `for row in 0..old_row_count { for col in 0..old_col_count { data.push( *self.inner.get(row, col).unwrap() ) } .. }` *)
 Definition copy_row (g : grid) (old_col_count req_positive_cols : Z) (row : Z) : res (list cell) :=
-  do old <- foldM (fun acc col => match grid_get g row col with
-                                  | Some x => Ok (acc ++ [x])
-                                  | None => Err OutOfBounds
-                                  end) (zrange 0 old_col_count) [];
+  do old <- foldM (fun acc col => do x <- (match grid_get g row col with
+                                           | Some x => Ok x
+                                           | None => Err OutOfBounds
+                                           end); Ok (acc ++ [x])) (zrange 0 old_col_count) [];
   Ok (old ++ repeat Unoccupied (Z.to_nat req_positive_cols)).
 
 Definition expand_to_fit_range (m : matrix) (row_range col_range : Z * Z) : res matrix :=
